@@ -346,3 +346,100 @@ func fieldChaseLoop(c *core.Ctx, f *ssa.Function, body map[*ssa.BasicBlock]bool)
 	}
 	return "", false
 }
+
+// shrinkingStringLoop: every iteration replaces the name it works on by the
+// part after the first '.' (second result of splitInclude) and leaves when
+// there is no such part — the loop form of the recursion certificate
+// "strictly shorter name".
+func shrinkingStringLoop(f *ssa.Function, body map[*ssa.BasicBlock]bool) (string, bool) {
+	for b := range body {
+		for _, in := range b.Instrs {
+			call, ok := in.(*ssa.Call)
+			if !ok || call.Call.StaticCallee() == nil || call.Call.StaticCallee().Name() != "splitInclude" || len(call.Call.Args) != 1 {
+				continue
+			}
+			var head, rest ssa.Value
+			for _, r := range *call.Referrers() {
+				if ex, ok := r.(*ssa.Extract); ok {
+					if ex.Index == 0 {
+						head = ex
+					} else {
+						rest = ex
+					}
+				}
+			}
+			if head == nil || rest == nil {
+				continue
+			}
+			// the loop is left when the head is empty
+			exits := false
+			for _, r := range *head.Referrers() {
+				lc, ok := r.(*ssa.Call)
+				if !ok {
+					continue
+				}
+				if bi, isB := lc.Call.Value.(*ssa.Builtin); !isB || bi.Name() != "len" {
+					continue
+				}
+				for _, rr := range *lc.Referrers() {
+					if bo, ok := rr.(*ssa.BinOp); ok {
+						for _, r3 := range *bo.Referrers() {
+							if ifi, ok := r3.(*ssa.If); ok && body[ifi.Block()] {
+								for _, s := range ifi.Block().Succs {
+									if !body[s] {
+										exits = true
+									}
+								}
+							}
+						}
+					}
+				}
+			}
+			if !exits {
+				continue
+			}
+			// the name of the next iteration derives from the rest: a store inside the loop (into the
+			// cell the argument is loaded from) or a phi edge, depending on it
+			src := map[ssa.Value]bool{rest: true}
+			feeds := false
+			arg := call.Call.Args[0]
+			if ld, ok := arg.(*ssa.UnOp); ok {
+				root := ld.X
+				for {
+					if fa, ok := root.(*ssa.FieldAddr); ok {
+						root = fa.X
+						continue
+					}
+					break
+				}
+				if al, ok := root.(*ssa.Alloc); ok {
+					var addrs []ssa.Value
+					addrs = append(addrs, al)
+					for i := 0; i < len(addrs); i++ {
+						for _, r := range *addrs[i].Referrers() {
+							switch x := r.(type) {
+							case *ssa.FieldAddr:
+								addrs = append(addrs, x)
+							case *ssa.Store:
+								if x.Addr == addrs[i] && body[x.Block()] && dependsOn(x.Val, src, map[ssa.Value]bool{}) {
+									feeds = true
+								}
+							}
+						}
+					}
+				}
+			}
+			if ph, ok := arg.(*ssa.Phi); ok {
+				for i, e := range ph.Edges {
+					if body[ph.Block().Preds[i]] && dependsOn(e, src, map[ssa.Value]bool{}) {
+						feeds = true
+					}
+				}
+			}
+			if feeds {
+				return "each iteration continues with the part of the name after its first '.' (strictly shorter) and leaves when there is none", true
+			}
+		}
+	}
+	return "", false
+}
